@@ -231,7 +231,7 @@ fn vec_vec_oversize() {
     kani::cover!(declared == u64::MAX);
 }
 
-//@ harness: vec_txout_oversize class=F tier=thorough props=C01 timeout=1800
+//@ harness: vec_txout_oversize class=F tier=thorough props=C01,C10 timeout=1800
 //@ clause: Vec<TxOut> decode: every declared element count n with n * size_of::<TxOut>() > 4_000_000 is rejected before allocation
 #[kani::proof]
 #[kani::unwind(2)] // as above
